@@ -56,7 +56,7 @@ impl Prop for C10 {
          len(LZ10(x)) <= 4 + n + ceil(n/8) and len(LZ13(x)) <= 8 + n + ceil(n/8). Effectiveness clause: for n bytes repeating with period p (n > p, p <= 4096) \
          len(out) <= H + (p+2) + r*R + ceil((p+2+r)/8), r = ceil((n-p)/L)+1, (H,L,R) = (4,18,2) for LZ10 and (8,4096,4) for LZ13 - the statement's formula verbatim. \
          Periods: ~55 values in quick (1..=20, around 256/512/1024/2048, 4088..=4096) and all of 1..=4096 in thorough, x lengths {p+1,p+3,p+18,p+19,2p,3p+5,p+4096,p+4097,p+10000} \
-         x patterns {random bytes, bytes over {0,1}, constant}; plus random (p,n,pattern); plus periods 1100/2198/3000/4096 whose pattern contains an inner repeat of 273..330 bytes on inputs of 60 000 and 600 000 bytes (thorough: up to 1 500 000). Non-trivial: periodic case with n >= p+3 and (p >= 2049 or n-p >= L), i.e. the case needs \
+         x patterns {random bytes, bytes over {0,1}, constant}; plus random (p,n,pattern); plus periods 1..=4 at every length up to 300; plus periods 1100/2198/3000/4096 whose pattern contains an inner repeat of 273..330 bytes on inputs of 60 000 and 600 000 bytes (thorough: up to 1 500 000). Non-trivial: periodic case with n >= p+3 and (p >= 2049 or n-p >= L), i.e. the case needs \
          the far half of the window or a maximal-length match. Distinct = distinct case value."
             .into()
     }
@@ -91,6 +91,19 @@ impl Prop for C10 {
                 for alphabet in 0u8..3 {
                     if idx % nshards == shard {
                         if !f(Case::Periodic { p, n, alphabet, seed: 0xC10 + p as u64 * 31 + alphabet as u64 }) {
+                            return;
+                        }
+                    }
+                    idx += 1;
+                }
+            }
+        }
+        // tiny periods at every length up to 300 (the start of the window, where references overlap their own output)
+        for p in 1u32..=4 {
+            for n in (p + 1)..=300 {
+                for alphabet in [0u8, 2] {
+                    if idx % nshards == shard {
+                        if !f(Case::Periodic { p, n, alphabet, seed: 0x5151 + p as u64 }) {
                             return;
                         }
                     }
